@@ -1,5 +1,7 @@
 """C03 - see DESIGN.md section 5"""
 from . import semprops, semjobs
-spec, validate = semprops.make(['stable','stable_with_prefilter'], 'stable', backend_kinds=('stable',))
+# bio/stable_rew: adfbiodivine::Adf::stable_bdd_representation (internal rewriting); hyb/stable_rew2: adf::Adf::stable_bdd_representation(&bio)
+spec, validate = semprops.make(['stable', 'stable_with_prefilter', 'bio/stable', 'bio/stable_rew', 'hyb/stable', 'hyb/stable_with_prefilter', 'hyb/stable_rew2', 'hybraw/stable'],
+                               'stable', backend_kinds=('stable',))
 replay = semprops.replay
 key = semprops.key
